@@ -112,7 +112,17 @@ class Op:
 
     pair = None         # (pair id, start order, 'A'|'B', the other Op) for the two-thread scenario
 
+    hist = None         # (history id, index, number of steps, follow-up action, context instrument path) for the history scenario
+
     def line(self):
+        if self.hist:
+            hid, idx, n, after, ins = self.hist
+            l = "step %s %s %s %s %s" % (self.id, self.entry, hx(self.modpath), self.helper, after)
+            if idx == 0:
+                l = "hist %s %s\n" % (hid, hx(ins)) + l
+            if idx == n - 1:
+                l += "\nendhist"
+            return l
         if self.pair:
             pid, order, who, other = self.pair
             if who != "A":
@@ -123,6 +133,8 @@ class Op:
     def describe(self):
         return {"id": self.id, "format": self.fmt, "entry": self.entry, "module_path": self.modpath, "ctx_instrument_path": self.ctxins,
                 "env_instrument_path": self.envins, "helper": self.helper, "sample_names": self.names, "note": self.note,
+                "history": None if not self.hist else {"history": self.hist[0], "step": self.hist[1], "of": self.hist[2],
+                                                       "then": self.hist[3]},
                 "concurrent_with": None if not self.pair else {"pair": self.pair[0], "start_order": self.pair[1], "this_thread": self.pair[2],
                                                                "other_module": self.pair[3].modpath,
                                                                "other_instrument_path": self.pair[3].ctxins}}
@@ -423,6 +435,83 @@ def build_world(ck, work, quick, rnd=0):
             oa.pair = (pid, order, "A", ob)
             ob.pair = (pid, order, "B", oa)
             ops += [oa, ob]
+    # ---- histories on ONE context: load attempts through every entry point with every kind of outcome (module, not a
+    # module, broken module, undepackable, helper-depacked, missing file), with or without release / a player run in
+    # between; the later loads are multi-file formats and every directory holds companions a stale directory would reach
+    hdirs = [b"hist a", b"hist-b", b"hist.c"]
+    hfiles = {}
+    hben = [b"kick", b"snare.smp", b"lead", b"x", b"Bass 1"]
+    for k, hd in enumerate(hdirs):
+        d = os.path.join(wb, hd)
+        os.makedirs(d, exist_ok=True)
+        populate_sample_dir(d)
+
+        def hput(name, data, fmt, names=(), width=0, _d=d, _hd=hd, _k=k):
+            open(os.path.join(_d, name), "wb").write(data)
+            hfiles.setdefault(fmt, []).append((_hd + b"/" + name, list(names), width))
+        nm = [rng.choice(hben) for _ in range(6)]
+        hput(b"song.mod", mod_song(nm), "mod", nm, 22)
+        nm = [rng.choice([x for x in hben if len(x) <= 12]) for _ in range(6)]
+        hput(b"song.stm", stm_song(nm), "stm", nm, 12)
+        nm = [rng.choice(hben)]
+        hput(b"song.med2", med2_song(nm[0]), "med2", nm, 31)
+        nm = [rng.choice(hben)]
+        hput(b"song.med3", med3_song(nm[0]), "med3", nm, 31)
+        nm = [rng.choice(hben) for _ in range(3)]
+        hput(b"song.med4", med4_song(nm), "med4", nm, 31)
+        hput(b"trek.flt", fltdata, "flt")
+        if k != 1:
+            open(os.path.join(d, b"trek.flt.nt"), "wb").write(b"ST1.2 ModuleINFO" + bytes(24 * 120))
+        hput(b"mfp.hist", mfpdata, "mfp")
+        open(os.path.join(d, b"smp.hist"), "wb").write(smpdata)
+        hput(b"notes.txt", b"these are just some notes about the songs in here\n" * 3, "txt")
+        hput(b"empty.bin", b"", "empty")
+        hput(b"junk.xm", b"Extended Module: broken" + bytes(rng.randrange(256) for _ in range(300)), "junk")
+        hput(b"junk.s3m", bytes(28) + b"\x1a\x10" + bytes(14) + b"SCRM" + bytes(40), "junk")
+        hput(b"bad.gz", b"\x1f\x8b\x08\x00" + bytes(rng.randrange(256) for _ in range(200)), "gz")
+        hput(b"x.mo3", b"MO3" + bytes(rng.randrange(256) for _ in range(200)), "mo3")
+        hput(b"x.rar", b"Rar!\x1a\x07\x00" + bytes(200), "rar")
+        hfiles.setdefault("missing", []).append((hd + b"/no such file", [], 0))
+        hfiles.setdefault("dir", []).append((hd, [], 0))
+    multi = ["mod", "stm", "med2", "med3", "med4", "flt", "mfp"]
+    first_kinds = [("txt", "fail"), ("empty", "fail"), ("junk", "fail"), ("gz", "fail"), ("mo3", "fail"), ("mo3", "ok"), ("rar", "fail"),
+                   ("missing", "fail"), ("dir", "fail"), ("mod", "fail"), ("flt", "fail"), ("mfp", "fail")]
+    nh = [0]
+
+    def add_hist(steps, ins=None):
+        """steps: [(fmt, entry, helper, after)]"""
+        nh[0] += 1
+        hid = "h%d" % nh[0]
+        made = []
+        for idx, (fmt, entry, helper, after) in enumerate(steps):
+            mp, names, width = rng.choice(hfiles[fmt])
+            if entry != "path" and fmt in ("missing", "dir"):
+                entry = "path"
+            o = Op("%ss%d" % (hid, idx), fmt, entry, mp, ins, None, helper, names, width, "step %d of a history on one context" % idx)
+            o.hist = (hid, idx, len(steps), after, ins)
+            made.append(o)
+        ops.extend(made)
+
+    # systematic: every kind of earlier path load x every non-path entry x released or not, then a multi-file format
+    k = 0
+    for fk, helper in first_kinds:
+        for e2 in ("mem", "file", "cb"):
+            for after1 in ("none", "release"):
+                if quick and (k % 3) != (ck.seed % 3) and not (fk in ("txt", "junk") and after1 == "none"):
+                    k += 1
+                    continue
+                k += 1
+                f2 = multi[k % len(multi)]
+                add_hist([(fk, "path", helper, after1), (f2, e2, "fail", "none"), (multi[(k + 3) % len(multi)], "path", "fail", "play")])
+    # random longer histories
+    allk = list(hfiles)
+    for _ in range(12 if quick else 60):
+        steps = []
+        for _i in range(rng.randint(2, 6)):
+            fmt = rng.choice(multi) if rng.random() < 0.6 else rng.choice(allk)
+            steps.append((fmt, rng.choice(["path", "path", "mem", "file", "cb"]), rng.choice(["fail", "ok"]),
+                          rng.choice(["none", "none", "release", "play", "playrelease"])))
+        add_hist(steps, ins=rng.choice([None, None, None, insdir_rel, hdirs[0]]))
     return ops + late
 
 
@@ -551,6 +640,8 @@ def parse_log(text):
         elif f[0] == "ret" and cur is not None:
             res[key] = (cur, int(f[3]))
             cur = None
+        elif f[0] == "state":
+            res.setdefault(("states", f[1]), {})[f[2]] = " ".join(f[3:6])
         elif f[0] == "tsys" and cur is not None:
             cur.append(f[1:])               # [who, function, args...]
         elif f[0] == "retp" and cur is not None:
@@ -615,6 +706,62 @@ def py_decision(op, work, min_header):
     return ("notpacked", [])
 
 
+OUTCOME = {0: "ok", -3: "format", -5: "depack", -6: "early", -7: "early"}
+
+
+def history_states(ck, ops, log, bump):
+    """correspondence for the context-history model (XmpModel.PathSafe.loadStep / histStep): what m->dirname, m->basename
+    and the loaded flag hold after every load attempt and after every follow-up action, real context vs model"""
+    hists = {}
+    for o in ops:
+        if o.hist:
+            hists.setdefault(o.hist[0], []).append(o)
+    lines, keys = [], []
+    for hid, steps in hists.items():
+        steps.sort(key=lambda o: o.hist[1])
+        toks, real, complete = [], [], True
+        for o in steps:
+            got = log.get((o.id, "load"))
+            st = log.get(("states", o.id))
+            if got is None or not st or "loaded" not in st or "after" not in st:
+                complete = False
+                break
+            ret = got[1]
+            toks += [o.entry, hx(o.modpath), OUTCOME.get(ret, "load"), o.hist[3] if (ret == 0 or "release" in o.hist[3]) else "none"]
+            if ret != 0 and "release" in o.hist[3]:
+                toks[-1] = "release"
+            real += [st["loaded"], st["after"]]
+        if complete and toks:
+            lines.append("hist " + " ".join(toks))
+            keys.append((hid, steps, " ".join(real)))
+    if not lines or not ck.driver_ok:
+        return
+    mo = vlib.run_driver("drv_c10", "\n".join(lines) + "\n")
+    nbad = 0
+    def canon(text, steps):
+        # mfp_load overwrites the first three characters of m->basename with "smp" (recorded as patchChar writes in
+        # Gen.OpenSites.fieldWrites); the model keeps the name as given: compare such names from the 4th character on
+        t = text.split(" ")
+        for i, o in enumerate(steps):
+            if o.fmt == "mfp":
+                for j in (6 * i + 2, 6 * i + 5):
+                    if j < len(t) and t[j] not in ("NULL", "-"):
+                        t[j] = "..." + t[j][6:]
+        return " ".join(t)
+
+    for (hid, steps, real), m, l in zip(keys, mo, lines):
+        real, m = canon(real, steps), canon(m, steps)
+        if m == real:
+            ck.cov["traces_validated_against_impl"] += 1
+            bump("histories_compared")
+        else:
+            nbad += 1
+            if nbad <= 3:
+                ck.unproved("correspondence PathSafe.histStep vs src/load.c",
+                            "history %s (%s): context fields (loaded dirname basename, after each load and each follow-up) real=`%s` model=`%s`" % (
+                                hid, "; ".join("%s %r" % (o.entry, o.modpath) for o in steps), real[:600], m[:600]))
+
+
 def tsan_pairs(ck, work, ops, tmpdir, bump):
     """thorough tier: the two-thread loads once more under ThreadSanitizer, without the parking (no artificial
     happens-before edges): a path buffer shared between contexts shows up as a data race inside libxmp"""
@@ -664,8 +811,8 @@ def run_opens(ck, only_round=None, only_op=None, verbose=False):
             ops = build_world(ck, work, quick, rnd)
             if only_op is not None:
                 sel = [o for o in ops if o.id == only_op]
-                ops = sel + [o.pair[3] for o in sel if o.pair]
-                ops.sort(key=lambda o: o.id)
+                hids = {o.hist[0] for o in sel if o.hist}
+                ops = [o for o in ops if o in sel or (o.hist and o.hist[0] in hids) or any(o is x.pair[3] for x in sel if x.pair)]
             plan = os.path.join(work, "plan.txt")
             open(plan, "w").write("\n".join(l for l in (o.line() for o in ops) if l) + "\n")
             tmpdir = os.path.join(work, "tmp").encode()
@@ -728,10 +875,21 @@ def run_opens(ck, only_round=None, only_op=None, verbose=False):
                     bump("helper_spawns", len(obs["execs"]))
                     if ret == 0:
                         bump("loads_ok")
+                    if op.hist:
+                        bump("history_steps")
+                        bump("history_step_%s_%s" % (op.entry, {0: "ok", -3: "format", -4: "load", -5: "depack", -6: "system",
+                                                                   -7: "invalid"}.get(ret, "other")))
                     if op.pair:
                         bump("thread_pair_loads")
                         bump("thread_pair_companion_opens", len(obs["opened"]))
                     for sig, what in viol:
+                        if op.hist:
+                            sig = "history:" + sig
+                            prev = [o for o in ops if o.hist and o.hist[0] == op.hist[0] and o.hist[1] < op.hist[1]]
+                            what += " -- step %d of a history on one context; earlier steps: %s" % (
+                                op.hist[1], ", ".join("%s %r -> %s%s" % (o.entry, o.modpath, log.get((o.id, "load"), (None, "?"))[1],
+                                                                          "" if o.hist[3] == "none" else " then " + o.hist[3])
+                                                      for o in prev))
                         if op.pair:
                             sig = "thread:" + sig
                             what += " -- while another thread loaded %r (start order %d)" % (op.pair[3].modpath, op.pair[1])
@@ -775,6 +933,7 @@ def run_opens(ck, only_round=None, only_op=None, verbose=False):
                     if len(ck.cov["samples"]) < 6 and beyond and phase == "load":
                         ck.sample({"format": op.fmt, "entry": op.entry, "module": repr(op.modpath), "return": ret,
                                    "os_calls": ["%s %r" % (c[0], unhex(c[1])) for c in calls][:8]}, limit=6)
+            history_states(ck, ops, log, bump)
             if (not quick or os.environ.get("C10_TSAN")) and rnd == 0 and only_op is None:
                 tsan_pairs(ck, work, ops, tmpdir, bump)
             if os.path.exists(os.path.join(work, "PWNED")):
